@@ -10,6 +10,8 @@ SETUP = [
     "n: int = 1", 's: str = "a"', "b: bool = true", "l: [int...] = [1]", "m = map[str, int]", "o: int? = nil",
     "f = fn(x: int) -> int {", "\treturn x", "}",
     "ob = K(1)", "al: A = 2",
+    "hof = fn(g: fn(str) -> int) -> int {", "\treturn g(\"a\")", "}",
+    "const fx = [1, \"a\"]",
 ]
 CLASS = ["class K {", "\tv: int", "\tconstructor(self, v: int) {", "\t\tself.v = v", "\t}", "\tfn mm(self, a: int) -> int {",
          "\t\treturn a + self.v", "\t}", "}", "type A int"]
@@ -25,6 +27,18 @@ FAULTS = {
     "init-int-optional": ["w7: int = o"],
     "init-fn-type": ["w8: fn(int) -> str = f"],
     "init-class-int": ["w9: K = 5"],
+    "init-fn-param-type": ["w11: fn(str) -> int = f"],
+    "init-fn-param-count": ["w12: fn(int, int) -> int = f"],
+    "init-fn-no-return": ["w13: fn(int) = f"],
+    "init-fixed-list-longer": ["const w14: [int, str, int] = fx"],
+    "init-fixed-list-shorter": ["const w15: [int] = fx"],
+    "init-fixed-list-order": ["const w16: [str, int] = fx"],
+    "init-list-of-optional": ["w17: [int...] = [1, nil]"],
+    "init-map-value-type": ["w18: map[str, str] = m"],
+    "init-map-key-type": ["w19: map[int, int] = m"],
+    "arg-fn-param-type": ["r10 = hof(f)"],
+    "ret-fn-param-type": ["bad6 = fn() -> fn(str) -> int {", "\treturn f", "}"],
+    "reassign-fn-param-type": ["hof = f"],
     "init-map-list": ["w10: map[str, int] = l"],
     "reassign-int-str": ['n = "x"'],
     "reassign-str-int": ["s = 1"],
@@ -159,7 +173,7 @@ class C03(Check):
     id = "C03"
     level = "fault_enumeration"
     rule = ("every (host context in {module level, function body, closure body, class method, constructor, else-if arm, while body, from body, "
-            "doubly nested block, imported module}) x (fault of a catalogue of 74 type-breaking edits: wrong-typed annotated initialiser, "
+            "doubly nested block, imported module}) x (fault of a catalogue of 89 type-breaking edits: wrong-typed annotated initialiser, "
             "re-assignment with another type (variable, field, list element, map value, op-assignment), wrong argument type / count (function, "
             "method, constructor, built-in), wrong / missing return value, non-boolean condition (if, else-if, while, assert, !, &&), unknown "
             "name / type / field / method, call of a non-callable, index of a non-indexable, non-index index, wrong map key type, operators on "
